@@ -23,7 +23,7 @@ HARNESS = os.path.join(ROOT, "harness")
 SPEC = os.path.join(ROOT, "spec")
 TLA_CP = "/opt/veriftools/tla/tla2tools.jar:/opt/veriftools/tla/CommunityModules-deps.jar"
 NCPU = os.cpu_count() or 4
-PURE_SPECS = ["BSON.tla", "Path.tla", "Query.tla", "QueryRef.tla", "BigDec.tla", "Update.tla"]
+PURE_SPECS = ["BSON.tla", "Path.tla", "Query.tla", "QueryRef.tla", "BigDec.tla", "Update.tla", "SortDistinct.tla", "Projection.tla"]
 
 
 class Inconclusive(Exception):
